@@ -27,6 +27,7 @@ fn main() {
             for (s, _) in oracle::oracles() { println!("oracle {}", s); }
         }
         "tables" => { tables::write(&args[2]); }
+        "c08-history" => { println!("{}", oracle::c08::run_one(&args[2])); }
         "corr" => {
             if args.len() < 6 { usage(); }
             let n: usize = args[3].parse().unwrap();
